@@ -362,6 +362,8 @@ class World(object):
         mod('math', {'ceil': NativeFunc('ceil', _ceil), 'log': Missing('math.log'),
                      'floor': NativeFunc('floor', _floor)})
         mods['re'] = ModuleVal('re', native=ReModule())
+        mod('pyDes', {'triple_des': NativeFunc('triple_des', lambda ex, a, k: TripleDes(a[0], a[2] if len(a) > 2 else None)),
+                      'CBC': 1, 'ECB': 0})
         mod('pyvc_rt', {
             'nondet_int': NativeFunc('nondet_int', _nd_int),
             'nondet_bool': NativeFunc('nondet_bool', _nd_bool),
@@ -372,6 +374,8 @@ class World(object):
             'require': NativeFunc('require', _require),
             'same_entries': NativeFunc('same_entries', _same_entries),
             'call_arg': NativeFunc('call_arg', _call_arg),
+            'ideal': NativeFunc('ideal', _ideal),
+            'call_ret': NativeFunc('call_ret', _call_ret),
         })
         return mods
 
@@ -481,6 +485,39 @@ def _require(ex, a, k):
     ex.oblige('%s/call-pre:%s' % (caller, a[1]), ex.truth(a[0]), detail='interface precondition ' + str(a[1]))
 
 
+def _ideal(ex, a, k):
+    """ideal(tag, outlen, *args): an idealised (collision-free, otherwise
+    uninterpreted) function from byte strings/ints to a byte string of outlen
+    octets: equal arguments give the same result, different arguments give
+    different results (for outlen > 0).  Stated assumption for crypto (C20)."""
+    tag, outlen, args = a[0], a[1], list(a[2:])
+    memo = ex.ghost.setdefault('ideal', {}).setdefault(tag, [])
+    for (pargs, pres) in memo:
+        if len(pargs) != len(args):
+            continue
+        eq = N.vand(ex, [N.veq(ex, x, y) for x, y in zip(args, pargs)])
+        if eq is False:
+            continue
+        if ex.branch(eq):
+            return pres
+    res = ex.fresh_bytes('ideal!' + str(tag), length=outlen)
+    for (pargs, pres) in memo:
+        if len(pargs) == len(args):
+            ne = N.vnot(N.veq(ex, res, pres))
+            ex.assume(ne)
+    memo.append((args, res))
+    ex.nondet.append(('bytes', N.snapshot(res)))
+    return res
+
+
+def _call_ret(ex, a, k):
+    """value returned by the last call of a callee replaced by contract a[0]"""
+    d = ex.ghost.get('call_ret', {})
+    if a[0] not in d:
+        raise Unsupported('call_ret: %s did not return on this path' % a[0])
+    return d[a[0]]
+
+
 def _call_arg(ex, a, k):
     """argument passed at the last call of a callee replaced by contract a[0]"""
     env = ex.ghost.get('call_args', {}).get(a[0])
@@ -519,6 +556,23 @@ def _ghost(ex, a, k):
     if h:
         return h(ex, a)
     return None
+
+
+class TripleDes(N.NativeObj):
+    """pyDes.triple_des(key, CBC, iv): encryption/decryption are ideal functions"""
+    def __init__(self, key, iv):
+        self.key, self.iv = key, iv
+
+    def getattr(self, ex, name):
+        if name in ('encrypt', 'decrypt'):
+            def f(ex_, a, k, name=name):
+                data = a[0]
+                if not isinstance(data, SBytes):
+                    ex_.throw('TypeError', 'data must be bytes')
+                n = data.length if isinstance(data.length, int) else SInt(data.length)
+                return _ideal(ex_, ['3des-' + name, n, self.key, self.iv, data], {})
+            return NativeFunc('3des.' + name, f)
+        return Missing('triple_des.' + name)
 
 
 class ReMatch(N.NativeObj):
